@@ -280,8 +280,9 @@ type c18CEDev struct {
 
 func (d *c18CEDev) ReadAt(p []byte, off int64) (int, error) {
 	d.reads++
-	// KF-C18-24: continuation areas that point to themselves (or to each other) are followed for ever
-	vp.AssertUnless("KF-C18-24", true, d.reads <= d.maxReads, "continuation chain reads no more areas than the image holds")
+	// (KF-C18-24, repaired by 938bdf7: continuation areas that point to themselves or to each other were
+	// followed for ever; the chain is now cut after a fixed number of areas)
+	vp.Assert(d.reads <= d.maxReads, "a continuation chain is followed for a bounded number of areas")
 	for k := range d.areas {
 		if off == int64(k*len(d.areas[k])) {
 			n := copy(p, d.areas[k])
@@ -295,11 +296,12 @@ func (d *c18CEDev) ReadAt(p []byte, off int64) (int, error) {
 }
 
 // VP_C18_iso_ce_chain: parseDirEntry on a record whose system use area ends in a CE entry, over an image
-// of 2 blocks of 28 bytes holding one CE entry each (arbitrary target block): a chain that ends reads at
-// most 2 areas.
+// of 2 blocks of 28 bytes holding one CE entry each (arbitrary target block): whatever the areas point to
+// (themselves, each other, outside), the number of areas read is bounded (the library cuts the chain after
+// 64 areas: 66 reads allowed here).
 func VP_C18_iso_ce_chain() {
 	const bs = 28
-	dev := &c18CEDev{maxReads: 2}
+	dev := &c18CEDev{maxReads: 66}
 	f := &FileSystem{blocksize: bs, suspEnabled: true, backend: dev}
 	rec := make([]byte, 62)
 	rec[0] = 62
@@ -318,7 +320,7 @@ func VP_C18_iso_ce_chain() {
 		binary.LittleEndian.PutUint32(area[20:], 28)
 		dev.areas = append(dev.areas, area)
 	}
-	vp.Unwind(6)
+	vp.Unwind(72)
 	vp.AllocCap(64)
 	vp.NoPanic()
 	_, err := parseDirEntry(rec, f)
@@ -357,11 +359,8 @@ func c18CEAlloc(empty bool) {
 	vp.Unwind(4)
 	vp.AllocCap(8)
 	vp.AllocLimit(limit)
-	// KF-C18-28: a continuation area without entries leaves the extension list empty; its last element is
-	// inspected again
-	if empty {
-		vp.KnownPanic("KF-C18-28", "iso9660.parseDirEntry) | index out of range")
-	}
+	// (KF-C18-28, repaired by 938bdf7: a continuation area without entries left the extension list empty and its last element was
+	// inspected again)
 	vp.NoPanic()
 	t0 := c18AllocBegin()
 	_, err := parseDirEntry(rec, f)
@@ -411,15 +410,17 @@ func VP_C18_iso_pathtable_lookup() {
 	vp.Assume(b[0] <= 1)
 	vp.Unwind(6)
 	pt := parsePathTable(b)
-	if len(pt.records) == 0 {
-		// KF-C18-26: empty path table: records[0] is used unconditionally
-		vp.KnownPanic("KF-C18-26", "iso9660.pathTable).getLocation) | index out of range")
-	}
 	vp.NoPanic()
 	loc := pt.getLocation("/")
 	vp.AllowPanic()
-	vp.Assert(loc == binary.LittleEndian.Uint32(b[2:]), "root extent from the first record")
-	vp.Cover("root looked up")
+	if len(pt.records) == 0 {
+		// (KF-C18-26, repaired by bbcd6c2: records[0] was used unconditionally)
+		vp.Assert(loc == 0, "an empty path table knows no location")
+		vp.Cover("empty path table")
+	} else {
+		vp.Assert(loc == binary.LittleEndian.Uint32(b[2:]), "root extent from the first record")
+		vp.Cover("root looked up")
+	}
 }
 
 // c18IsoDev is the image of c18IsoRead: zeroed system area, two volume descriptors at 32768 and 34816,
